@@ -42,6 +42,7 @@ class CreateNode(Unit):
         return ex.ExpressionManager.create_node
 
     def configure(self, eng):
+        eng.partial_classes.add(ex.ExpressionManager)
         # FNodeContent(node_type, args, payload): abstract key; structural equality of contents is equality of keys
         def mk_content(eng_, st, args, kw):
             yield st, st.ghost["content"]
@@ -130,7 +131,200 @@ def replay_file(data):
     return replay_concrete(data.get("concrete") or {})
 
 
-UNITS = [CreateNode()]
+
+# ----------------------------------------------------------------------------------------------------------------
+# Constructor contracts: every public constructor returns exactly the node create_node gives for the documented
+# (node_type, args, payload), or the documented normal form.  create_node is the contract proved above.
+OK = T.OK
+EMRec = ex.ExpressionManager
+PayT = Ref("Payload16")
+
+
+class Ctor(Unit):
+    prop = "C16"
+    allowed_raises = ()
+
+    def __init__(self, meth, nargs, expect, doc, raises=()):
+        """expect(self, ctx, st) -> list of (label, goal) given ctx['calls'] (create_node calls) and ctx['out']"""
+        self.meth, self.nargs, self.expect = meth, nargs, expect
+        self.name = f"ExpressionManager.{meth}" + (f"/{nargs}" if nargs is not None else "")
+        self.doc = doc
+        self.allowed_raises = tuple(raises)
+
+    def target(self):
+        return getattr(ex.ExpressionManager, self.meth)
+
+    def configure(self, eng):
+        eng.assert_raises = True
+        eng.partial_classes.add(ex.ExpressionManager)
+
+        def create_node(e, st, args, kw):
+            a = list(args[1:])
+            node_type = kw.get("node_type", a[0] if a else None)
+            cargs = kw.get("args", a[1] if len(a) > 1 else None)
+            payload = kw.get("payload", a[2] if len(a) > 2 else None)
+            n = T.FNode.fresh("node")
+            st.ghost["calls"] = st.ghost.get("calls", []) + [(node_type, cargs, payload, n)]
+            yield st, n
+        eng.contracts[ex.ExpressionManager.create_node] = create_node
+
+        def auto_promote(e, st, args, kw):
+            # auto_promote(*xs): one expression per (non-iterable) argument, in order; FNode arguments are returned as they are
+            xs = list(args[1:])
+            if len(xs) == 1 and isinstance(e.deref(st, xs[0]), (CList, tuple, list)):
+                c = e.deref(st, xs[0])
+                xs = list(c.items if isinstance(c, CList) else c)
+            yield st, CList(list(xs))
+        eng.contracts[ex.ExpressionManager.auto_promote] = auto_promote
+        T.FNode.observers["is_not"] = ((), Bool)
+        T.FNode.methods["arg"] = lambda e, st, selfv, a, k: iter([(st, T.fnode_args(e, st, selfv).at(a[0]))])
+        T.FNode.attrs["type"] = lambda e, st, x: B.uf_value(e, st, "FNode.type", [x.z], [T.FNode.z3sort()], T.Type)
+
+    def setup(self, eng, st):
+        env = EnvT.fresh("env")
+        tt, ff = T.FNode.fresh("true_expression"), T.FNode.fresh("false_expression")
+        m = st.alloc(Rec(ex.ExpressionManager, {"environment": env, "true_expression": tt, "false_expression": ff}), "manager")
+        ctx = dict(m=m, tt=tt, ff=ff, env=env)
+        args = self.make_args(eng, st, ctx)
+        ctx["args"] = args
+        return [m] + args, {}, ctx
+
+    def make_args(self, eng, st, ctx):
+        k = self.meth
+        if k == "Int":
+            return [Int.fresh("value")]
+        if k == "Real":
+            return [Real.fresh("value")]
+        if k == "Bool":
+            return [Bool.fresh("value")]
+        if k in ("TRUE", "FALSE"):
+            return []
+        if k in ("ParameterExp", "VariableExp", "ObjectExp", "TimingExp"):
+            t = {"ParameterExp": T.Parameter, "VariableExp": T.Variable, "ObjectExp": T.Object, "TimingExp": T.Timing}[k]
+            t.fields["environment"] = EnvT
+            v = t.fresh("payload")
+            st.assume(fld(t, "environment", EnvT)(v.z) == ctx["env"].z)
+            return [v]
+        n = self.nargs if self.nargs is not None else {"Not": 1}.get(k, 2)
+        return [T.FNode.fresh(f"a{i}") for i in range(n)]
+
+    def post(self, eng, ctx, st, out):
+        if out[0] == "raise":
+            return
+        r = out[1]
+        if isinstance(r, SUnion):
+            r = r.some()
+        calls = st.ghost.get("calls", [])
+        for lab, goal in self.expect(ctx, st, calls, r):
+            st.oblige(lab, goal)
+
+
+def fld(t, name, rt):
+    return B._uf(f"{t.name}.{name}", t.z3sort(), rt.z3sort())
+
+
+def _is_kind(node_type, kind):
+    return z3.BoolVal(node_type is kind)
+
+
+def _one_call(kind, args_of, payload_of=None):
+    def expect(ctx, st, calls, r):
+        yield "exactly one create_node call", z3.BoolVal(len(calls) == 1)
+        if len(calls) != 1:
+            return
+        nt_, cargs, payload, n = calls[0]
+        yield f"node_type is {kind.name}", _is_kind(nt_, kind)
+        yield "result is the node create_node returned", r.z == n.z
+        want = args_of(ctx)
+        got = list(cargs) if isinstance(cargs, (tuple, list)) else (list(cargs.items) if isinstance(cargs, CList) else None)
+        yield "args are the documented ones, in order", z3.BoolVal(got is not None and len(got) == len(want)) if got is None or len(got) != len(want) \
+            else z3.And([g.z == w.z for g, w in zip(got, want)] + [z3.BoolVal(True)])
+        if payload_of is not None:
+            w = payload_of(ctx)
+            ok = payload is not None and not isinstance(payload, (tuple, list)) and hasattr(payload, "z") and z3.is_expr(payload.z) and payload.z.sort() == w.z.sort()
+            yield "payload is the given value (same kind of value)", (payload.z == w.z) if ok else z3.BoolVal(False)
+        else:
+            yield "no payload", z3.BoolVal(payload is None)
+    return expect
+
+
+def _bin(kind, mirrored=False):
+    return _one_call(kind, (lambda c: [c["args"][1], c["args"][0]]) if mirrored else (lambda c: list(c["args"])))
+
+
+def _nary(kind, unit_name):
+    def expect(ctx, st, calls, r):
+        a = ctx["args"]
+        if len(a) == 1:
+            yield "one argument: the argument itself", z3.And(r.z == a[0].z, z3.BoolVal(len(calls) == 0))
+        elif len(a) >= 2:
+            yield from _one_call(kind, lambda c: list(c["args"]))(ctx, st, calls, r)
+        else:
+            if unit_name in ("tt", "ff"):
+                yield "no argument: the Boolean unit", z3.And(r.z == ctx[unit_name].z, z3.BoolVal(len(calls) == 0))
+            else:
+                yield "no argument: exactly one create_node call", z3.BoolVal(len(calls) == 1)
+                if len(calls) == 1:
+                    nt_, cargs, payload, n = calls[0]
+                    yield "no argument: the Int unit", z3.And(_is_kind(nt_, OK.INT_CONSTANT), r.z == n.z,
+                                                              zint(payload) == unit_name if payload is not None else z3.BoolVal(False))
+    return expect
+
+
+def _not(ctx, st, calls, r):
+    a = ctx["args"][0]
+    isnot = B._uf("FNode.is_not()", T.FNode.z3sort(), z3.BoolSort())(a.z)
+    inner = z3.Select(T.args_arr(a.z), 0)
+    if len(calls) == 0:
+        yield "Not(Not(x)) is x", z3.And(isnot, r.z == inner)
+    else:
+        yield "argument is not a negation", z3.Not(isnot)
+        yield from _one_call(OK.NOT, lambda c: [c["args"][0]])(ctx, st, calls, r)
+
+
+def _bool(ctx, st, calls, r):
+    v = ctx["args"][0]
+    yield "Bool(v) is the TRUE / FALSE node", z3.And(z3.BoolVal(len(calls) == 0), r.z == z3.If(v.z, ctx["tt"].z, ctx["ff"].z))
+
+
+def _eq_or_iff(ctx, st, calls, r):
+    yield "exactly one create_node call", z3.BoolVal(len(calls) == 1)
+    if len(calls) != 1:
+        return
+    nt_, cargs, payload, n = calls[0]
+    a0, a1 = ctx["args"]
+    ftype = B._uf("FNode.type", T.FNode.z3sort(), T.Type.z3sort())
+    isb = B._uf("Type.is_bool_type()", T.Type.z3sort(), z3.BoolSort())
+    both = z3.And(isb(ftype(a0.z)), isb(ftype(a1.z)))
+    yield "IFF exactly when both sides are Boolean", z3.If(both, _is_kind(nt_, OK.IFF), _is_kind(nt_, OK.EQUALS))
+    yield "result is the node create_node returned", r.z == n.z
+    got = list(cargs)
+    yield "args in order", z3.And(got[0].z == a0.z, got[1].z == a1.z) if len(got) == 2 else z3.BoolVal(False)
+
+
+CTORS = [
+    Ctor("Int", None, _one_call(OK.INT_CONSTANT, lambda c: [], lambda c: c["args"][0]), "Int(v) = create_node(INT_CONSTANT, (), v)", raises=()),
+    Ctor("Real", None, _one_call(OK.REAL_CONSTANT, lambda c: [], lambda c: c["args"][0]), "Real(v) = create_node(REAL_CONSTANT, (), v)"),
+    Ctor("Bool", None, _bool, "Bool(v) is the stored TRUE / FALSE node"),
+    Ctor("TRUE", None, lambda ctx, st, calls, r: iter([("TRUE() is the stored node", z3.And(r.z == ctx["tt"].z, z3.BoolVal(len(calls) == 0)))]), "TRUE()"),
+    Ctor("FALSE", None, lambda ctx, st, calls, r: iter([("FALSE() is the stored node", z3.And(r.z == ctx["ff"].z, z3.BoolVal(len(calls) == 0)))]), "FALSE()"),
+    Ctor("ParameterExp", None, _one_call(OK.PARAM_EXP, lambda c: [], lambda c: c["args"][0]), "ParameterExp(p)"),
+    Ctor("VariableExp", None, _one_call(OK.VARIABLE_EXP, lambda c: [], lambda c: c["args"][0]), "VariableExp(v)"),
+    Ctor("ObjectExp", None, _one_call(OK.OBJECT_EXP, lambda c: [], lambda c: c["args"][0]), "ObjectExp(o)"),
+    Ctor("TimingExp", None, _one_call(OK.TIMING_EXP, lambda c: [], lambda c: c["args"][0]), "TimingExp(t)"),
+    Ctor("Not", None, _not, "Not(Not(x)) is x, otherwise create_node(NOT, (x,))"),
+    Ctor("Minus", None, _bin(OK.MINUS), "Minus(l, r)"), Ctor("Div", None, _bin(OK.DIV), "Div(l, r)"),
+    Ctor("LE", None, _bin(OK.LE), "LE(l, r)"), Ctor("LT", None, _bin(OK.LT), "LT(l, r)"),
+    Ctor("GE", None, _bin(OK.LE, mirrored=True), "GE(l, r) is LE(r, l)"), Ctor("GT", None, _bin(OK.LT, mirrored=True), "GT(l, r) is LT(r, l)"),
+    Ctor("Equals", None, _bin(OK.EQUALS), "Equals(l, r)"), Ctor("Iff", None, _bin(OK.IFF), "Iff(l, r)"), Ctor("Implies", None, _bin(OK.IMPLIES), "Implies(l, r)"),
+    Ctor("EqualsOrIff", None, _eq_or_iff, "EqualsOrIff: IFF for two Booleans, EQUALS otherwise"),
+]
+for _k, _kind, _unit in (("And", OK.AND, "tt"), ("Or", OK.OR, "ff"), ("Plus", OK.PLUS, 0), ("Times", OK.TIMES, 1)):
+    for _n in (0, 1, 2, 3):
+        CTORS.append(Ctor(_k, _n, _nary(_kind, _unit), f"{_k} with {_n} argument(s): documented normal form (arity bounded at 3: the body does not depend on the arity beyond 0/1/many)"))
+
+UNITS = [CreateNode()] + CTORS
+
 
 
 def extra_checks(tier, seed):
@@ -223,6 +417,41 @@ def bounded(tier, seed):
             else:
                 if not (lit.is_real_constant() and lit.constant_value() == fr and lit is Real(fr)):
                     bad(f"numeric literal {v!r} is not the canonical Real constant", {"literal": repr(v), "got": str(lit)})
+            if len(failures) >= 6:
+                break
+        # ---- identity == structure, on fresh environments, in both creation orders (a stale side table shows up only
+        #      when a structurally different expression was built first)
+        from unified_planning.environment import Environment
+        from unified_planning.model.operators import OperatorKind as OKK
+        for r_ in range(max(20, n // 10)):
+            env = Environment()
+            em2 = env.expression_manager
+            made = []
+            vals = [rng.choice([0, 1, 2, -3, 7, 2 ** 64]) for _ in range(3)]
+            reqs = []
+            for v in vals:
+                reqs += [("Int", v), ("Real", Fraction(v)), ("Real", Fraction(v, 1) / 1), ("Real", Fraction(2 * v + 1, 2)), ("Bool", bool(v % 2))]
+            rng.shuffle(reqs)
+            for kind_, v in reqs:
+                nd = getattr(em2, kind_)(v)
+                evals += 1
+                want_nt = {"Int": OKK.INT_CONSTANT, "Real": OKK.REAL_CONSTANT, "Bool": OKK.BOOL_CONSTANT}[kind_]
+                if nd.node_type != want_nt or type(nd.constant_value()) is not type(v) or nd.constant_value() != v:
+                    bad(f"{kind_}(v) is not a {want_nt.name} node carrying v", {"requests": [(k, str(x)) for k, x in reqs], "at": (kind_, str(v)),
+                                                                                 "got": f"{nd.node_type.name} payload {nd.constant_value()!r}"})
+                made.append(((kind_, v), nd))
+            x_ = up.model.Fluent("x", up.model.types._IntType() if False else env.type_manager.IntType(), environment=env)
+            composite = [("Plus2", em2.Plus(x_, 2)), ("PlusR2", em2.Plus(x_, em2.Real(Fraction(2)))), ("Plus2b", em2.Plus(x_, em2.Int(2)))]
+            if composite[0][1] is not composite[2][1]:
+                bad("Plus(x, 2) and Plus(x, Int(2)) are different nodes", {"order": [(k, str(v)) for k, v in reqs]})
+            if composite[0][1] is composite[1][1]:
+                bad("Plus(x, Int 2) and Plus(x, Real 2) are the same node", {"order": [(k, str(v)) for k, v in reqs]})
+            for i_, ((k1, v1), n1) in enumerate(made):
+                for (k2, v2), n2 in made[i_ + 1:]:
+                    same_struct = (k1 == k2 and v1 == v2)
+                    if same_struct != (n1 is n2) or same_struct != (n1.node_id == n2.node_id):
+                        bad(f"identity differs from structure: {k1} vs {k2} constants", {"a": (k1, str(v1)), "b": (k2, str(v2)),
+                                                                                          "same_node": n1 is n2, "ids": (n1.node_id, n2.node_id)})
             if len(failures) >= 6:
                 break
     return {"evaluations": evals, "distinct_nontrivial": len(nontrivial), "failures": failures[:6],
